@@ -1,22 +1,80 @@
 """C03 -- consumers see only committed messages: all of them, once, in order."""
 import json
 from vcommon import Ctx
-from logcases import eval_log_cases
+import re
+from logcases import eval_log_cases, cz, c_list
+from vcommon import coq_bool
+
+
+def c_wstep(st):
+    lb = st["lb"]
+    k = lb["l"]
+    if k == "append":
+        labels = ["WAppend %s" % cz(lb["n"])]
+    elif k == "ro":
+        labels = ["WRoFlag %s" % coq_bool(lb["b"])] + (["WRoNotify"] if lb["b"] else [])
+    elif k == "sethw":
+        labels = ["WSetHW %s" % cz(lb["h"])]
+    elif k == "sync":
+        labels = ["WSync %d%%nat" % lb["i"]]
+    elif k == "deliver":
+        labels = ["WDeliver %d%%nat" % lb["i"]]
+    else:
+        labels = ["WWait %d%%nat" % lb["i"]]
+    rs = c_list(["(%s, %s, %s, %s)" % (cz(x["next"]), cz(x["seen"]), coq_bool(x["parked"]), coq_bool(x["ended"])) for x in st["rs"]])
+    return "(%s, mkWobs %s %s %s %s)" % (c_list(labels), cz(st["hw"]), cz(st["newest"]), coq_bool(st["ro"]), rs)
+
+
+def eval_hwwait(ctx, cases, shard=100):
+    """-> list of (case, step index) where the commit log and the LTS of Log/HwWaitRo.v differ."""
+    jobs = []
+    for s in range(0, len(cases), shard):
+        part = cases[s:s + shard]
+        txt = "From LB Require Import Base.Prelude Log.HwWaitRo Log.HwWaitCheck.\nOpen Scope Z_scope.\n"
+        sentinel = "(1%nat, [([WAppend 1], mkWobs 12345 0 false [(0, -1, false, false)])])"
+        txt += "Definition CS : list (nat * list (list wlabel * wobs)) := [\n %s].\n" % ";\n ".join(
+            ["(%d%%nat, %s)" % (c["readers"], c_list([c_wstep(st) for st in c["steps"]])) for c in part] + [sentinel])
+        txt += "Definition M := Eval vm_compute in wcases_mismatches CS 0.\nPrint M.\n"
+        jobs.append((("hwwait_%d" % len(jobs), txt), part))
+    outs = ctx.coq_eval_many([j[0] for j in jobs], jobs=8)
+    mism = []
+    for out, (_, part) in zip(outs, jobs):
+        if out is None:
+            continue
+        m = re.search(r"M\s*=\s*(.*?)\n\s*:", out, re.S)
+        if not m:
+            ctx.tie_problems.append({"what": "could not parse the model's answer (hwwait)", "detail": out[-500:]})
+            continue
+        pairs = [(int(a), int(b)) for a, b in re.findall(r"\(\s*(\d+)(?:%nat)?\s*,\s*(\d+)(?:%nat)?\s*\)", m.group(1))]
+        if (len(part), 0) not in pairs:
+            ctx.tie_problems.append({"what": "the model evaluation (hwwait) did not report the sentinel mismatch: its answer cannot be trusted", "detail": out[-300:]})
+        for a, b in pairs:
+            if a < len(part):
+                mism.append((part[a], b))
+    return mism
 
 
 def run(pid, tier, seed, replay):
     ctx = Ctx(pid, tier, seed)
     ctx.trusted.append("partial: the LTS (Log/HwWait.v) has one transition per critical section of SetHighWatermark / waitForHW / reader step; the Go scheduler, memory model and channel semantics are not modelled -- the concurrent stress run with an online monitor is what connects the theorem to the runtime (race detector in the thorough tier)")
     ctx.coq_cone("Properties/C03.v")
+    ctx.trusted.append("the lock-granularity replay calls commitLog.waitForHW directly with the view a committed reader would pass; committedReader.Read itself (which reads the HW, compares and calls waitForHW) is exercised by the histories and the stress run")
     # deterministic part: histories with live committed readers, compared step by step with the model
     env = {"VERIF_PROFILE": "c03", "VERIF_N": 150 if tier == "quick" else 2000}
     lines = ctx.go_driver("server/commitlog", ["commitlog/logdrv_test.go"], "^TestVerifLog$", env=env, timeout=1500)
     cases = [l for l in lines if l.get("k") == "log"]
+    # the wake-up protocol at lock granularity: every label of Log/HwWaitRo.v is one call into the commit log
+    lines3 = ctx.go_driver("server/commitlog", ["commitlog/hwwait_test.go"], "^TestVerifHwWait$", env={"VERIF_N": 300 if tier == "quick" else 5000}, timeout=1500)
+    wcases = [l for l in lines3 if l.get("k") == "hwwait"]
+    wm = eval_hwwait(ctx, wcases)
+    for c, j in wm[:3]:
+        ctx.tie_problems.append({"what": "correspondence Log.HwWaitCheck.wcases_mismatches: label sequence %d differs from the LTS after step %d (%s)" % (c["id"], j, json.dumps(c["steps"][j]["lb"])),
+                                 "first": [{"case": {"id": c["id"], "readers": c["readers"], "steps": c["steps"][:j + 1]}}]})
     # concurrent part
     env2 = {"VERIF_N": 30 if tier == "quick" else 300}
     lines2 = ctx.go_driver("server/commitlog", ["commitlog/c03_test.go"], "^TestVerifC03$", env=env2, timeout=1500, race=(tier == "thorough"))
     dist = {}
-    for l in lines + lines2:
+    for l in lines + lines2 + lines3:
         if l.get("k") == "stat":
             dist.update(l["dist"])
         if l.get("k") == "violation":
@@ -35,7 +93,8 @@ def run(pid, tier, seed, replay):
             canon.add(c["id"])
     return ctx.finish(
         coverage={"input_distribution": dist, "histories_with_live_readers": len(canon), "live_reader_deliveries": live,
+                  "lock_granularity_label_sequences": len(wcases), "lock_granularity_steps": sum(len(c["steps"]) for c in wcases),
                   "stress_rounds": len(stress), "stress_deliveries": sum(s["deliveries"] for s in stress), "race_detector": tier == "thorough"},
         samples=stress[:2] or [{}],
-        rule="(a) operation histories with committed and uncommitted Reader objects kept across appends, rolls, HW moves and truncations, every read compared with the model; (b) concurrent rounds: an appender, a HW mover with random steps, 2-6 committed readers started at arbitrary offsets (also beyond the HW and on an empty log) with an online monitor (offset <= HighWatermark() after the read, consecutive offsets, content) and a final drain that detects lost wake-ups; non-trivial = a history in which a live reader delivered, or a stress round; distinct by history / round",
+        rule="(0) label sequences of the wake-up LTS (Log/HwWaitRo.v) executed one call per label on a real commit log (Append, SetReadonly, SetHighWatermark, HighWatermark, waitForHW) and compared with the model after every label; (a) operation histories with committed and uncommitted Reader objects kept across appends, rolls, HW moves and truncations, every read compared with the model; (b) concurrent rounds: an appender, a HW mover with random steps, 2-6 committed readers started at arbitrary offsets (also beyond the HW and on an empty log) with an online monitor (offset <= HighWatermark() after the read, consecutive offsets, content) and a final drain that detects lost wake-ups; non-trivial = a history in which a live reader delivered, or a stress round; distinct by history / round",
         evaluations=len(cases) + len(stress), distinct_nontrivial=len(canon) + len(stress), traces=len(cases))
